@@ -1,0 +1,40 @@
+//go:build verif
+
+package lalr
+
+// Read-only views used by the verification harness in /verif.
+// Compiled only with `-tags verif`; nothing here changes behaviour.
+
+// VerifTransition is one entry of the (unexported) transition list.
+type VerifTransition struct {
+	Index    int
+	Q        int  // source state
+	IsReduce bool // reduce transition (Q, rule) when true, else (Q, symbol)
+	Sym      int  // symbol ID when !IsReduce
+	Rule     int  // rule index when IsReduce
+	To       int  // target state when !IsReduce
+}
+
+// VerifTrans returns a copy of the transition list.
+func (lalr *LALR1) VerifTrans() []VerifTransition {
+	res := make([]VerifTransition, 0, len(lalr.trans))
+	for _, tr := range lalr.trans {
+		v := VerifTransition{Index: tr.Index, Q: tr.q}
+		if tr.sym_or_rule&CheckMask != 0 {
+			v.IsReduce = true
+			v.Rule = int(tr.sym_or_rule & Mask)
+			v.To = -1
+		} else {
+			v.Sym = int(tr.sym_or_rule)
+			v.To = tr.to
+		}
+		res = append(res, v)
+	}
+	return res
+}
+
+// VerifRelation builds a Relation (its fields are unexported).
+func VerifRelation(x, y int) Relation { return Relation{x: x, y: y} }
+
+// VerifRelationXY reads a Relation.
+func VerifRelationXY(r Relation) (int, int) { return r.x, r.y }
